@@ -918,9 +918,17 @@ def m_guid_new(ex, st, args, dty, canon):
 
 @pattern(r'^(protocol::response::)?parse_json_response$')
 def m_parse_json(ex, st, args, dty, canon):
+    return env_event(ex, st, 'parse_json_response', (ex.snapshot(st, args[0]),), dty)
+
+
+def env_event(ex, st, name, args, dty):
     nm = 'ev%d' % len(st.trace)
-    st.trace.append(Event('env', 'parse_json_response', (ex.snapshot(st, args[0]),), nm))
-    return ex.mk_sym(dty, nm)
+    st.trace.append(Event('env', name, tuple(args), nm, extra=dty))
+    v = ex.mk_sym(dty, nm)
+    hook = ex.cfg.get('env_assume')
+    if hook is not None:
+        hook(ex, st, name, v, dty)
+    return v
 
 
 def cut_appset(ex):
@@ -1012,6 +1020,9 @@ def m_do_omaha_cut(ex, st, args, dty, canon):
     rty = 'std::result::Result<(http::response::Parts, std::vec::Vec<u8>, std::option::Option<cup_ecdsa::RequestMetadata>, std::option::Option<ecdsa::der::Signature<p256::NistP256>>), state_machine::OmahaRequestError>'
     res = Tree({}, nm, rty)
     st.trace.append(Event('env', 'do_omaha_request', (ops,), nm))
+    hook = ex.cfg.get('env_assume')
+    if hook is not None:
+        hook(ex, st, 'do_omaha_request', res, rty)
     rd = ex.discr_of(st, res).t
     e = payload(ex, st, res, 1, 0, 'state_machine::OmahaRequestError')
     ed = ex.discr_of(st, e).t
